@@ -1455,6 +1455,13 @@ class Evaluator:
                                                        len(b.items)))))
                     elif isinstance(b, Tup) and isinstance(i, Rat) and i.is_const():
                         out.append((c1 | c2, b.items[int(i.const_value())]))
+                    elif isinstance(i, Rat) and i.is_const() and i.const_value().denominator == 1 and i.const_value() < 0 \
+                            and isinstance(b, Rat) and b.single_atom() is not None:
+                        # x[-k] is x[len(x) - k]; positional accessors of a series / frame have their owner's length
+                        bt = b.single_atom()
+                        owner = bt[1] if isinstance(bt, tuple) and len(bt) == 3 and bt[0] == "attr" and bt[2] in ("iloc", "index", "values", "iat") else bt
+                        i2 = Rat.atom(("len", owner)) + i
+                        out.append((c1 | c2, Rat.atom(("idx", as_term(b), as_term(i2)))))
                     elif isinstance(i, Rat) and i.is_const() and i.const_value().denominator == 1:
                         out.append((c1 | c2, Rat.atom(("item", as_term(b), int(i.const_value())))))
                     else:
@@ -1981,6 +1988,10 @@ class Evaluator:
             return [(frozenset(), Rat.atom(("ceil", self.as_num(pos[0], node, ctx))))]
         if nm in ("math.pow", "pow") and len(pos) == 2:
             return [(frozenset(), self.binop(ast.Pow(), self.as_num(pos[0], node, ctx), self.as_num(pos[1], node, ctx), node))]
+        if nm in ("copy.copy", "copy.deepcopy", "deepcopy") and len(pos) == 1 and isinstance(pos[0], (Obj, Tup)) and not kw:
+            # a copy of a record / display built in this function is a new object with the same fields (records are
+            # values here; sharing of such objects between iterations is the loop-sharing rule's business)
+            return [(frozenset(), pos[0])]
         if short == "isinstance":
             cls_txt = ast.unparse(node.args[1]) if len(node.args) > 1 else "?"
             if isinstance(pos[0], Tup) and getattr(pos[0], "lit", None) == "list" and cls_txt in ("list", "List"):
@@ -2044,6 +2055,21 @@ class Evaluator:
         for i, v in enumerate(pos):
             fields[names[i] if i < len(names) else f"_{i}"] = v     # never drop an argument
         fields.update(kw)
+        if cls.is_dataclass:
+            # a field left to its default_factory gets its own new object: `Snapshot(...)` and
+            # `Snapshot(..., market_status=MarketDict())` are the same construction
+            for k in self.model.mro(cls):
+                for st in k.node.body:
+                    if isinstance(st, ast.AnnAssign) and isinstance(st.target, ast.Name) and st.target.id not in fields \
+                            and isinstance(st.value, ast.Call) and ast.unparse(st.value.func).split(".")[-1] == "field":
+                        fac = next((w.value for w in st.value.keywords if w.arg == "default_factory"), None)
+                        if isinstance(fac, ast.Name):
+                            if fac.id == "dict":
+                                fields[st.target.id] = Obj("dict", {})
+                            elif fac.id == "list":
+                                fields[st.target.id] = Tup([], lit="list")
+                            elif fac.id in self.model.classes:
+                                fields[st.target.id] = Obj(fac.id, {})
         return Obj(cls.name, fields)
 
     def inline_alts(self, f: FuncInfo, selfv, selfcls, pos, kw, ctx, node):
@@ -2794,7 +2820,58 @@ def _mentions(term, t) -> bool:
     return False
 
 
+def _empty_range_loops(v, conds):
+    """afterloop(...) values of a loop over range(lo, hi) (or a collection) that the guards prove empty are the
+    variables' initial values."""
+    from .norm import all_atoms_deep
+    if isinstance(v, Tup):
+        return Tup([_empty_range_loops(x, conds) for x in v.items], lit=getattr(v, "lit", None))
+    if not isinstance(v, Rat):
+        return v
+    targets = [a for a in all_atoms_deep(v) if isinstance(a, tuple) and len(a) == 4 and a[0] == "afterloop"]
+    if not targets:
+        return v
+    known_neg = [(c.op, c.x) for c in conds if c.op in ("<", "<=") and isinstance(c.x, Rat)]
+    empties = _known_empty(conds)
+    mapping = {}
+    for a in targets:
+        src = a[1]
+        if not (isinstance(src, tuple) and len(src) == 4 and src[0] == "loop" and src[3] is None):
+            continue
+        it = src[1]
+        empty = any(_mentions(it, t) for t in empties)
+        if not empty and isinstance(it, tuple) and len(it) == 2 and it[0] == "iter" and isinstance(it[1], tuple) and it[1] \
+                and it[1][0] == "call" and it[1][1] == "range":
+            args = [x[1] if isinstance(x, tuple) and len(x) == 2 and not isinstance(x[0], str) else x for x in it[1][2:]]
+            rs = []
+            for x in args:
+                if isinstance(x, tuple) and x and x[0] == "expr":
+                    x = x[1]
+                rs.append(x if isinstance(x, Rat) else (Rat.atom(x) if isinstance(x, tuple) else None))
+            if all(r is not None for r in rs) and len(rs) in (1, 2):
+                lo, hi = (Rat.const(0), rs[0]) if len(rs) == 1 else (rs[0], rs[1])
+                span = hi - lo
+                for op, x in known_neg:
+                    # span <= 0, or (integers) span - 1 < 0
+                    if (op == "<=" and x == span) or (op == "<" and (x == span - Rat.const(1) or x == span)):
+                        empty = True
+        if empty:
+            init = src[2][a[3]]
+            if isinstance(init, tuple) and init and init[0] == "expr":
+                init = init[1]
+            mapping[a] = init if isinstance(init, Rat) else Rat.atom(init)
+    if not mapping:
+        return v
+    from .rules.sign import subst
+    try:
+        return subst(v, mapping)
+    except Exception:  # noqa
+        return v
+
+
 def _simplify_outcome(o, conds):
+    if not (isinstance(o, tuple) and len(o) == 2 and isinstance(o[0], frozenset)):
+        o = _empty_range_loops(o, conds)
     if isinstance(o, tuple) and len(o) == 2 and isinstance(o[0], frozenset):
         fx = o[0]
         empty = _known_empty(conds)
